@@ -169,3 +169,34 @@ def accessor_is(ctx, rule, fname, fields):
                 break
         ok = ok and x == ("arg", 1)
         ctx.ob(rule, "accessor|%s" % fname, ok, "%s returns self.%s unchanged" % (fname, ".".join(fields)), fn.loc(0))
+
+
+def parse_loop_fn(ctx):
+    """Name of the function that drives the parser state machine (calls parse_request_line)."""
+    for f in ctx.facts.fns.values():
+        if f.name.startswith(P) and list(f.calls_to(PARSE_RL)):
+            return f.name
+    raise AnalysisError("no function of HttpConnection calls parse_request_line")
+
+
+def self_effects(ctx, lf, allow=()):
+    """Events of a leaf that may modify *self (arg1): assignments through it, &mut of it or of its
+    fields handed to a callee not in `allow` (last path segment)."""
+    out = []
+    for e in lf.events:
+        if e[0] == "assign" and e[3].startswith("(*_1)"):
+            out.append(("assign", e[3], e[1]))
+        elif e[0] == "call":
+            for a in e[4][2]:
+                x = a
+                if x[0] == "ref" and x[2]:
+                    b = look(x[1])
+                    if b == ("arg", 1) or (b[0] == "field" and look(b[1]) == ("arg", 1)):
+                        if last_seg(e[3]) not in allow:
+                            out.append(("mutcall", e[3], e[1]))
+                elif x == ("arg", 1) and e[3] in ctx.facts.fns:
+                    f = ctx.facts.fns[e[3]]
+                    ty = f.locals[1]["ty"] if f.nargs >= 1 else {}
+                    if ty.get("k") == "ref" and ty.get("mut") and last_seg(e[3]) not in allow:
+                        out.append(("mutcall", e[3], e[1]))
+    return out
